@@ -597,6 +597,10 @@ class Interp:
                 return self.call_lambda(f, args, node)
             argvals = self.eval_args(fdecl, args)
             return self.call(fdecl, this_cell, argvals, node)
+        if k == 'CXXOperatorCallExpr' and node.get('oop') == '()' and fdecl is None and this_cell is not None:
+            f = this_cell.value
+            if isinstance(f, FuncRef) and f.lam is not None:
+                return self.call_lambda(f, args, node)
         # external
         bname = name.split('<')[0]
         fnname = MATH_FUNCS.get(bname)
@@ -844,6 +848,10 @@ class Interp:
             return v
         if isinstance(v, Poly):
             return Cond('cmp', v, Poly.const(0), '!=')
+        if isinstance(v, Opaque) and v.what == 'string':
+            return True
+        if isinstance(v, FuncRef):
+            return True
         raise Unsupported('truth value of %r at %s' % (v, self.loc(node)))
 
     def eval(self, node):
